@@ -714,5 +714,7 @@ def run(ctx) -> None:
     ctx.guard(r06_5)
     ctx.guard(r06_8)
     ctx.guard(r06_9)
+    from .c11 import r11_22 as _r11_22
+    ctx.guard_as("R06.10", _r11_22)  # "the key's declared use / key_ops must permit the operation": the view check_use / check_key_op read is stored in the key only after it was completed with the caller's parameters and validated (seed C06-s: thumbprint() cached the bare value members, so `use` / `key_ops` given as parameters were never merged)
     ctx.guard(audit_key_type)
     ctx.assume("primitives of cryptography fail for keys of the wrong type (backs the audit-only key-type gate)")
